@@ -1016,6 +1016,46 @@ func hasNewFunctions(repo string, overlay map[string][]byte) (bool, map[string]b
 			if err != nil {
 				continue
 			}
+			// loops with a constant number of trips (`for i := range 3`, `for i := range a` with
+			// `var a [3]T` in the same file, `for i := 1; i < 7; i += 2`) are unrolled by the
+			// normaliser: their presence starts it, like a new name does
+			arrays := map[string]bool{}
+			ast.Inspect(f, func(n ast.Node) bool {
+				if vs, ok := n.(*ast.ValueSpec); ok {
+					if at, ok := vs.Type.(*ast.ArrayType); ok {
+						if _, lit := at.Len.(*ast.BasicLit); lit {
+							for _, nm := range vs.Names {
+								arrays[nm.Name] = true
+							}
+						}
+					}
+				}
+				return true
+			})
+			ast.Inspect(f, func(n ast.Node) bool {
+				switch x := n.(type) {
+				case *ast.RangeStmt:
+					if x.Value == nil && x.Key != nil && x.Tok == token.DEFINE {
+						if bl, ok := x.X.(*ast.BasicLit); ok && bl.Kind == token.INT {
+							found = true
+						}
+						if id, ok := x.X.(*ast.Ident); ok && arrays[id.Name] {
+							found = true
+						}
+					}
+				case *ast.ForStmt:
+					init, ok1 := x.Init.(*ast.AssignStmt)
+					cond, ok2 := x.Cond.(*ast.BinaryExpr)
+					if ok1 && ok2 && x.Post != nil && init.Tok == token.DEFINE && len(init.Rhs) == 1 {
+						_, l1 := init.Rhs[0].(*ast.BasicLit)
+						_, l2 := cond.Y.(*ast.BasicLit)
+						if l1 && l2 {
+							found = true
+						}
+					}
+				}
+				return true
+			})
 			ast.Inspect(f, func(n ast.Node) bool {
 				// a local closure without results that could be called as a statement
 				if as, ok := n.(*ast.AssignStmt); ok && as.Tok == token.DEFINE && len(as.Rhs) == 1 {
